@@ -552,6 +552,8 @@ impl Life {
                             self.check_content("provision-existing", true);
                         } else {
                             if m == M::Raw && blank(&pass) { self.fail("provision:raw:blank-key:ok".into(), Value::Null); }
+                            // a raw key must be the base58 text of exactly 32 bytes: anything else is malformed and must be refused
+                            if m == M::Raw && !blank(&pass) && !usable_new_key(m, &pass) { self.fail("provision:new:err->ok:malformed-raw-key".into(), json!({"decoded_len": b58dec(pass.as_deref().unwrap_or("")).map(|x| x.len())})); }
                             if profile.is_none() { self.random_name = Some(active.clone()); bump(&mut self.feat, "random_profile"); }
                             self.new_store(m, &pass, &active);
                             bump(&mut self.feat, &format!("provision_new:{}", m.name()));
@@ -660,6 +662,7 @@ impl Life {
                         self.rf.prev = old;
                         self.rf.method = m;
                         self.rf.last_key_op = "rekey";
+                        if m == M::Raw && !blank(&pass) && !usable_new_key(m, &pass) { self.fail(format!("rekey:err->ok:malformed-raw-key:{}->raw", from.name()), json!({"decoded_len": b58dec(pass.as_deref().unwrap_or("")).map(|x| x.len())})); }
                         if m == M::Raw && blank(&pass) {
                             // refused at provision time ("Cannot create a store with a blank raw key"); accepted here,
                             // and the store is wrapped under a random key nobody holds
